@@ -42,8 +42,10 @@ def enum_paths(body, start=0, limit=5000, max_visits=1, stop_blocks=()):
 
 
 class PathState:
-    def __init__(self, body):
+    def __init__(self, body, prog=None):
         self.body = body
+        self.prog = prog
+        self.feasible = True
         self.env = {}        # local -> expr ; ('f', local, fieldpath) -> expr for partial writes
         self.events = []     # ('call', Call, args_exprs) | ('branch', block, discr_expr, taken_value, target)
         for i in range(1, body.arg_count + 1):
@@ -118,7 +120,7 @@ class PathState:
             return ('discr', self.place(rv['place']))
         if k == 'agg':
             if rv['kind'] == 'adt':
-                return ('agg', rv['adt'], rv['variant'], tuple(self.operand(o) for o in rv['ops']), tuple(rv.get('fields', ())))
+                return ('agg', rv['adt'], rv['variant'], tuple(self.operand(o) for o in rv['ops']), tuple(rv.get('fields', ())), rv.get('vi'))
             if rv['kind'] == 'closure':
                 return ('closure', rv['closure'], tuple(self.operand(o) for o in rv['ops']))
             return ('agg', rv['kind'], '', tuple(self.operand(o) for o in rv['ops']), ())
@@ -141,6 +143,24 @@ class PathState:
                 if r and r[0] == 'refl':
                     self.env[r[1]] = e
             # else: ignore
+
+    def known_discr(self, d):
+        """value of a switch discriminant when it is statically known on this path (constant, or the
+        discriminant of an enum value built on this path), else None"""
+        d = strip(d)
+        if d[0] == 'const' and d[1] is not None:
+            return d[1]
+        if d[0] == 'discr':
+            x = strip(d[1])
+            if x[0] == 'agg' and len(x) > 5 and x[5] is not None:
+                adt = x[1]
+                if adt in ('std::result::Result', 'std::option::Option', 'std::ops::ControlFlow'):
+                    return x[5]
+                if self.prog is not None and adt in self.prog.adts:
+                    for v in self.prog.adts[adt]['variants']:
+                        if v['name'] == x[2]:
+                            return v.get('discr', x[5])
+        return None
 
     def deep(self, e, depth=0):
         """replace references to locals by the value the local holds now"""
@@ -185,6 +205,13 @@ class PathState:
                 if tg == next_block:
                     taken = v
             self.events.append(('branch', b, d, taken, next_block))
+            known = self.known_discr(d)
+            if known is not None:
+                if taken is None:
+                    if known in t['vals']:
+                        self.feasible = False
+                elif taken != known:
+                    self.feasible = False
         elif k == 'assert':
             pass
 
@@ -219,8 +246,8 @@ def strip(e):
             return e
 
 
-def run_path(body, path):
-    st = PathState(body)
+def run_path(body, path, prog=None):
+    st = PathState(body, prog)
     for i, b in enumerate(path):
         nxt = path[i + 1] if i + 1 < len(path) else None
         st.step_block(b, nxt)
